@@ -15,6 +15,16 @@ Oracle = the statement of C02 in /verif/properties.jsonl, clause by clause:
   "This holds for every reachable internal shape, including trees thinned by
   deletions."  -> the states come from insert/delete histories (reach()).
 
+  "separators that are no longer present in their leaf" (why_tests_cant) /
+  anchors.state "stale separators": a separator may be smaller than the
+  smallest key of the child it points to (docs/development.rst, "BTree Clues";
+  _check() and BTrees.check.check() accept such trees).  Insert/delete
+  histories of the current code refresh the separator, so these shapes are
+  built through __setstate__ (stale_specs()/build_state()): 2-, 3- and 4-level
+  trees, single-child roots included, every separator anywhere in
+  (largest key on its left, smallest key on its right]; the same oracle
+  [R][M][L] runs on them.  Failure keys of these states start with "stale:".
+
 Nothing is taken from the code under test: the expected answer is computed on
 the reference key set kept next to the container.  Keys live at the even
 positions 2,4,..,2n; the bounds range over every position 0..2n+2 (present keys,
@@ -154,8 +164,10 @@ class Config:
         self.tag = "%s%s%s" % (fam, kind, "Py" if impl == "py" else "")
         self.evals = 0
         self.fails = {}                # key -> Failure (one per key and configuration)
+        self.prefix = ""               # "stale:" for the states built with stale separators
 
     def fail(self, key, desc, hist, call):
+        key = self.prefix + key
         if key in self.fails:
             return
         lines = ["from BTrees.%sBTree import %s as Base" % (self.fam, self.tag)]
@@ -163,16 +175,21 @@ class Config:
             lines += ["class C(Base):", "    max_leaf_size, max_internal_size = %d, %d" % self.sizes]
         else:
             lines += ["C = Base"]
-        lines += ["t = C()"]
-        for op, p in hist:
-            k = key_of(self.fam, p)
-            lines.append(("t.add(%r)" % (k,) if op == "ins" else "t.remove(%r)" % (k,)) if self.is_set else
-                         ("t[%r] = %r" % (k, val_of(self.fam, p)) if op == "ins" else "del t[%r]" % (k,)))
+        if isinstance(hist, StateSpec):
+            lines = hist.script(self)
+            history = {"setstate": hist.spec}
+        else:
+            lines += ["t = C()"]
+            for op, p in hist:
+                k = key_of(self.fam, p)
+                lines.append(("t.add(%r)" % (k,) if op == "ins" else "t.remove(%r)" % (k,)) if self.is_set else
+                             ("t[%r] = %r" % (k, val_of(self.fam, p)) if op == "ins" else "del t[%r]" % (k,)))
+            history = [[op, repr(key_of(self.fam, p))] for op, p in hist]
         lines.append("print(%s)" % call)
         self.fails[key] = Failure(
             key=key, desc="%s sizes=%s: %s" % (self.tag, self.sizes, desc),
             repro={"family": self.fam, "kind": self.kind, "impl": self.impl, "sizes": list(self.sizes),
-                   "history": [[op, repr(key_of(self.fam, p))] for op, p in hist], "call": call},
+                   "history": history, "call": call},
             script="\n".join(lines) + "\n")
 
     # ---- [M]
@@ -296,6 +313,165 @@ class Config:
                                 self.check_lazy(getattr(t, form)(*args, **kw), want, form, hist, call, rng, n % 21 == 0)
 
 
+# ------------------------------------------- states with stale separators
+BUILDER_SRC = """def build(spec, T, B, is_set, key, val):
+    leaves = []
+    def collect(n):
+        if n[0] == "L":
+            leaves.append(n)
+        else:
+            for c in n[1]:
+                collect(c)
+    collect(spec)
+    made, nxt = {}, None
+    for lf in reversed(leaves):          # leaves right to left: each links to its successor
+        b = B()
+        data = tuple(key(p) for p in lf[1]) if is_set else tuple(x for p in lf[1] for x in (key(p), val(p)))
+        b.__setstate__((data,) if nxt is None else (data, nxt))
+        made[id(lf)] = nxt = b
+    def first(n):
+        return made[id(n)] if n[0] == "L" else first(n[1][0])
+    def mk(n):
+        if n[0] == "L":
+            return made[id(n)]
+        kids = [mk(c) for c in n[1]]
+        data = [kids[0]]
+        for sep, kid in zip(n[2], kids[1:]):
+            data += [key(sep), kid]
+        t = T()
+        t.__setstate__((tuple(data), first(n)))
+        return t
+    return mk(spec)
+"""
+exec(BUILDER_SRC)
+
+
+class StateSpec:
+    """A tree given by its state: ["N", [children], [separators]] / ["L", [key positions]]."""
+
+    def __init__(self, spec):
+        self.spec = spec
+
+    def script(self, cfg):
+        fam = cfg.fam
+        return (["from BTrees.%sBTree import %s as T" % (fam, cfg.tag), "B = T._bucket_type"] +
+                BUILDER_SRC.rstrip().split("\n") +
+                ["key = lambda p: %s" % ("bytes([0, p])" if fam == "fs" else "p"),
+                 "val = lambda p: %s" % ("b'v%05d' % p" if fam == "fs" else
+                                         {"O": "'v%d' % p", "F": "p + 0.5"}.get(fam[1], "p + 100")),
+                 "t = build(%r, T, B, %r, key, val)" % (self.spec, cfg.is_set)])
+
+
+def spec_keys(n):
+    return list(n[1]) if n[0] == "L" else [k for c in n[1] for k in spec_keys(c)]
+
+
+def spec_stale(n):
+    """number of separators smaller than the smallest key of the child they point to"""
+    if n[0] == "L":
+        return 0
+    return (sum(1 for sep, c in zip(n[2], n[1][1:]) if sep < spec_keys(c)[0]) + sum(spec_stale(c) for c in n[1]))
+
+
+def spec_height(n):
+    return 1 if n[0] == "L" else 1 + max(spec_height(c) for c in n[1])
+
+
+def stale_specs(rng, pos, leafmax, fanmax, count):
+    """Seeded specs: a subset of the key positions (gaps are the deleted keys),
+    cut into leaves of 1..leafmax keys, under a root directly (2 levels), under
+    interior nodes of 1..fanmax+1 leaves (3 levels), with an extra single-child
+    root on top (root with one child), or a root over one leaf object; every
+    separator is drawn from (largest key to its left, smallest key to its
+    right] by one of four policies, at least one of them stale."""
+    out, tries = {}, 0
+    shapes = ("two", "three", "single-child-root", "single-leaf-root", "three", "two")
+    policies = ("lowest", "just-below", "deleted-key", "mixed")
+    while len(out) < count and tries < count * 30:
+        shape = shapes[tries % len(shapes)]
+        policy = policies[(tries // len(shapes)) % len(policies)]
+        tries += 1
+        m = rng.randint(2, len(pos))
+        present = sorted(rng.sample(pos, m))
+        leaves = []
+        while present:
+            n = rng.randint(1, leafmax)
+            leaves.append(["L", present[:n]])
+            present = present[n:]
+
+        def sep(a, b):
+            # a = largest key on the left, b = smallest key on the right; positions are even, so a + 1 < b
+            if policy == "lowest":
+                return a + 1
+            if policy == "just-below":
+                return b - 1
+            if policy == "deleted-key":        # a position that held a key once: even, strictly between
+                c = [x for x in range(a + 2, b, 2)]
+                return rng.choice(c) if c else a + 1
+            return rng.choice([a + 1, b - 1, b, rng.randint(a + 1, b)])
+
+        def node(kids):
+            return ["N", kids, [sep(spec_keys(x)[-1], spec_keys(y)[0]) for x, y in zip(kids, kids[1:])]]
+
+        def groups(kids):
+            g = []
+            while kids:
+                n = rng.randint(1, fanmax + 1)
+                g.append(node(kids[:n]))
+                kids = kids[n:]
+            return g
+        if shape == "single-leaf-root":
+            spec = node(leaves[:1])
+        elif shape == "two" and len(leaves) <= 2 * fanmax:
+            spec = node(leaves)
+        else:
+            spec = node(groups(leaves))
+            if shape == "single-child-root":
+                spec = node([spec]) if len(spec[1]) > 1 else spec
+        if shape != "single-leaf-root" and not spec_stale(spec):
+            continue
+        out.setdefault(repr(spec), spec)
+    return list(out.values())
+
+
+def run_stale(job):
+    _, fam, kind, impl, sizes, nkeys, cap, seed = job
+    from BTrees.check import check as pkg_check
+    c = Config(fam, kind, impl, sizes)
+    c.prefix = "stale:"
+    cls = H.get_class(fam, kind, impl, *sizes)
+    rng = random.Random("stale/%s/%s/%s/%s/%s" % (seed, fam, kind, impl, sizes))
+    pos = list(range(2, 2 * nkeys + 1, 2))
+    universe = list(range(0, 2 * nkeys + 3))
+    t0 = time.time()
+    specs = stale_specs(rng, pos, sizes[0], sizes[1], cap)
+    nontrivial, sample, heights = 0, None, set()
+    for i, spec in enumerate(specs):
+        t = build(spec, cls, cls._bucket_type, c.is_set, lambda p: key_of(fam, p), lambda p: val_of(fam, p))
+        try:
+            t._check()
+            pkg_check(t)
+        except AssertionError as e:      # the package accepts stale separators: a rejection is a bug of this builder
+            raise RuntimeError("state with stale separators rejected by the package's checkers: %r: %s" % (spec, e))
+        present = frozenset(spec_keys(spec))
+        st = StateSpec(spec)
+        c.check_minmax(t, st, present, universe)
+        c.check_ranges(t, st, present, universe, rng, i)
+        stale = spec_stale(spec)
+        nontrivial += len(present) >= 2 and (stale > 0 or len(spec[1]) == 1)
+        heights.add(spec_height(spec))
+        if sample is None and stale >= 2 and spec_height(spec) >= 3:
+            sample = {"class": c.tag, "sizes": list(sizes), "state": spec, "stale separators": stale,
+                      "checked": "as for the reached states: minKey/maxKey over every bound 0..%d, every "
+                                 "(min,max,excludemin,excludemax), len/index/slice of the lazy results" % universe[-1]}
+    return {"evals": c.evals, "nontrivial": nontrivial, "fails": list(c.fails.values()), "sample": sample,
+            "reached": len(specs), "strata": len(heights), "wall": time.time() - t0, "tag": c.tag + "/stale", "sizes": sizes}
+
+
+def run_job(job):
+    return run_stale(job) if job[0] == "stale" else run_config(job)
+
+
 def run_config(job):
     fam, kind, impl, sizes, nkeys, n_hist, cap, seed = job
     c = Config(fam, kind, impl, sizes)
@@ -332,6 +508,7 @@ def main():
     nkeys = 8 if qs else 10
     n_hist, cap_c, cap_py = (200, 60, 24) if qs else (1000, 300, 100)
     sizes = [(2, 2), (3, 2)] if qs else [(2, 2), (2, 3), (3, 2), (4, 3)]
+    stale_c, stale_py = (40, 16) if qs else (200, 70)
     s = Standin(
         name="range_rt",
         bound="per (family, kind in BTree/TreeSet/Bucket/Set, C and Python, node sizes %s): states reached after any prefix "
@@ -341,9 +518,16 @@ def main():
               "iterkeys/itervalues/iteritems for every (min, max) in (omitted, None, every position 0..%d)^2 x "
               "excludemin x excludemax; on every 3rd combination the lazy result under len() and every index in "
               "-n-2..n+1 (ascending, descending, seeded order on one object), on every 21st every slice [a:b], a, b in "
-              "None, -n-1..n+1" % (sizes, n_hist, nkeys, cap_c, cap_py, 2 * nkeys + 2, 2 * nkeys + 2),
+              "None, -n-1..n+1.  PLUS per (family, BTree/TreeSet, C and Python, node sizes): up to %d (C) / %d (Python) "
+              "seeded states built through __setstate__ with stale separators (a subset of the %d keys cut into leaves "
+              "of 1..max_leaf_size keys; 2 levels, 3 levels with interior nodes of 1..max_internal_size+1 leaves, an extra "
+              "single-child root, a root over one leaf object; every separator drawn from (largest key on its left, "
+              "smallest key on its right]: lowest, just below the key, a deleted key, mixed), accepted by _check() and "
+              "BTrees.check.check(), under the same calls" %
+              (sizes, n_hist, nkeys, cap_c, cap_py, 2 * nkeys + 2, 2 * nkeys + 2, stale_c, stale_py, nkeys),
         rule="case = one call (range call, minKey/maxKey, len, index or slice) compared with the list computed from the "
-             "reference key set; distinct non-trivial = distinct (structure, keys) states with >= 2 keys that were checked",
+             "reference key set; distinct non-trivial = distinct (structure, keys) states with >= 2 keys that were checked "
+             "(built states: distinct (structure, keys, separators) with >= 2 keys and >= 1 stale separator or a single-child root)",
         exhaustive=False,
         functions=["BTree_findRangeEnd", "BTree_rangeSearch", "BTree_maxminKey", "BTreeItems_seek", "BTreeItems_slice",
                    "BTreeItems_length_or_nonzero", "BTreeIter_next", "Bucket_rangeSearch", "Bucket_maxminKey",
@@ -354,8 +538,13 @@ def main():
             for impl in ("c", "py"):
                 for sz in (sizes if kind in ("BTree", "TreeSet") else [(None, None)]):
                     jobs.append((fam, kind, impl, sz, nkeys, n_hist, cap_c if impl == "c" else cap_py, H.seed()))
+    for fam in H.fams():
+        for kind in ("BTree", "TreeSet"):
+            for impl in ("c", "py"):
+                for sz in sizes:
+                    jobs.append(("stale", fam, kind, impl, sz, nkeys, stale_c if impl == "c" else stale_py, H.seed()))
     with cf.ProcessPoolExecutor(max_workers=min(16, os.cpu_count() or 1, len(jobs))) as ex:
-        results = list(ex.map(run_config, jobs))      # in job order: deterministic
+        results = list(ex.map(run_job, jobs))      # in job order: deterministic
     for r in results:
         s.evaluations += r["evals"]
         s.distinct_nontrivial += r["nontrivial"]
